@@ -149,6 +149,33 @@ spec fn wheel_of(osc: OsCode) -> MWheelDirection {
 //@@ spec
     requires is_wheel(osc),
     ensures r == wheel_of(osc),
+//@ raw
+// mouse button names: the conversion used when a mouse-button ACTION is emitted must be the
+// inverse of the one used by the output filter, so that a button name denotes the same code
+// wherever it is written.
+impl vstd::std_specs::convert::FromSpecImpl<Btn> for OsCode {
+    open spec fn obeys_from_spec() -> bool { true }
+    open spec fn from_spec(btn: Btn) -> Self {
+        match btn {
+            Btn::Left => OsCode::BTN_LEFT,
+            Btn::Right => OsCode::BTN_RIGHT,
+            Btn::Mid => OsCode::BTN_MIDDLE,
+            Btn::Forward => OsCode::BTN_EXTRA,
+            Btn::Backward => OsCode::BTN_SIDE,
+        }
+    }
+}
+//@ item parser/src/keys/linux.rs fn from in `From<Btn> for OsCode`
+//@@ wrap impl From<Btn> for OsCode
+
+//@ raw
+fn rt_mouse_button(btn: Btn) {
+    let osc: OsCode = OsCode::from(btn);
+    assert(is_mouse_btn(osc));
+    let back = osc_to_btn(osc);
+    assert(back == btn);
+}
+
 //@ item src/kanata/output_logic.rs fn write_key
 //@@ ret r
 //@@ spec
